@@ -193,6 +193,11 @@ def _calc_all(sysd, ta, nd):
     return e, numpy.array(e.data, copy=True)
 
 
+def _OpR(E):
+    from quantarhei.qm import Operator
+    return Operator(data=numpy.array(E, dtype=float, copy=True))
+
+
 def _unit_rho(d, n, m):
     qr = isolation.qr()
     r = qr.ReducedDensityMatrix(dim=d)
@@ -351,6 +356,24 @@ def _check_apply(V, sysd, ta, eso, U, tag):
                 r3 = guarded("apply(float,copy=False)", lambda: eso.apply(times[i], r2, copy=False))
                 if r3 is not None:
                     classify("apply(float,copy=False)", i, r3.data, n, m)
+                # the same with a state whose data were given as REAL numbers (the usual way a
+                # population / real coherence is typed in): the result is complex all the same
+                E = numpy.zeros((d, d))
+                E[n, m] = 1.0
+                r2r = qr.ReducedDensityMatrix(data=E.copy()) if n == m else None
+                if r2r is None:
+                    from quantarhei.qm import Operator as _Op
+                    r2r = _Op(data=E.copy())
+                r3r = guarded("apply(float,copy=False)",
+                              lambda: eso.apply(times[i], r2r, copy=False))
+                if r3r is not None:
+                    classify("apply(float,copy=False)", i, r3r.data, n, m)
+                so_r = guarded("at(t)", lambda: eso.at(times[i]))
+                if so_r is not None:
+                    E2 = qr.ReducedDensityMatrix(data=E.copy()) if n == m else _OpR(E)
+                    r5 = guarded("at(t).apply", lambda: so_r.apply(E2, copy=False))
+                    if r5 is not None:
+                        classify("at(t).apply", i, r5.data, n, m)
                 # at(t) used as a plain SuperOperator
                 so = guarded("at(t)", lambda: eso.at(times[i]))
                 if so is not None:
